@@ -12,6 +12,7 @@ import BigDec.Driver.C09
 import BigDec.Driver.C10
 import BigDec.Driver.C11
 import BigDec.Driver.C12
+import BigDec.Driver.C13
 import BigDec.Driver.C15
 import BigDec.Driver.C19
 import BigDec.Driver.C18
@@ -36,6 +37,7 @@ def dispatch (prop op : String) (args : List String) (impl : String) : Verdict :
   | "C10" => Driver.C10.handle op args impl
   | "C11" => Driver.C11.handle op args impl
   | "C12" => Driver.C12.handle op args impl
+  | "C13" => Driver.C13.handle op args impl
   | "C15" => Driver.C15.handle op args impl
   | "C19" => Driver.C19.handle op args impl
   | "C18" => Driver.C18.handle op args impl
